@@ -161,6 +161,86 @@ pub fn hdr_obs(bytes: &[u8]) -> String {
     format!("th={:x} ah={:x} name={}", th, ah, hex(&bytes[37..37 + nl]))
 }
 
+// ------------------------------------------------------------------ fault-injecting writers and readers
+
+/// accepts bytes until `limit` in total (the last write partially), then fails
+pub struct FailAfter { pub limit: usize, pub got: Vec<u8> }
+impl Write for FailAfter {
+    fn write(&mut self, buf: &[u8]) -> std::io::Result<usize> {
+        let room = self.limit - self.got.len();
+        if buf.is_empty() { return Ok(0); }
+        if room == 0 { return Err(std::io::Error::new(std::io::ErrorKind::Other, "full")); }
+        let n = room.min(buf.len());
+        self.got.extend_from_slice(&buf[..n]);
+        Ok(n)
+    }
+    fn flush(&mut self) -> std::io::Result<()> { Ok(()) }
+}
+/// accepts at most `max` bytes per call, interrupts every `intr`-th call (0 = never)
+pub struct ShortWriter { pub max: usize, pub intr: usize, pub calls: usize, pub got: Vec<u8> }
+impl Write for ShortWriter {
+    fn write(&mut self, buf: &[u8]) -> std::io::Result<usize> {
+        self.calls += 1;
+        if self.intr != 0 && self.calls % self.intr == 0 {
+            return Err(std::io::Error::new(std::io::ErrorKind::Interrupted, "intr"));
+        }
+        let n = self.max.min(buf.len());
+        self.got.extend_from_slice(&buf[..n]);
+        Ok(n)
+    }
+    fn flush(&mut self) -> std::io::Result<()> { Ok(()) }
+}
+/// accepts everything, fails on flush
+pub struct FlushFail { pub got: Vec<u8> }
+impl Write for FlushFail {
+    fn write(&mut self, buf: &[u8]) -> std::io::Result<usize> { self.got.extend_from_slice(buf); Ok(buf.len()) }
+    fn flush(&mut self) -> std::io::Result<()> { Err(std::io::Error::new(std::io::ErrorKind::Other, "flush")) }
+}
+/// returns Ok(0) once `limit` bytes have been taken
+pub struct ZeroAfter { pub limit: usize, pub got: Vec<u8> }
+impl Write for ZeroAfter {
+    fn write(&mut self, buf: &[u8]) -> std::io::Result<usize> {
+        let room = self.limit - self.got.len();
+        let n = room.min(buf.len());
+        self.got.extend_from_slice(&buf[..n]);
+        Ok(n)
+    }
+    fn flush(&mut self) -> std::io::Result<()> { Ok(()) }
+}
+
+/// delivers `data` in fragments of sizes cycling through `sizes`, interrupting every `intr`-th
+/// call (0 = never) and failing once `failat` bytes have been delivered
+pub struct FragReader<'a> { pub data: &'a [u8], pub pos: usize, pub sizes: Vec<usize>, pub intr: usize, pub calls: usize, pub failat: Option<usize> }
+impl Read for FragReader<'_> {
+    fn read(&mut self, buf: &mut [u8]) -> std::io::Result<usize> {
+        self.calls += 1;
+        if self.intr != 0 && self.calls % self.intr == 0 {
+            return Err(std::io::Error::new(std::io::ErrorKind::Interrupted, "intr"));
+        }
+        let mut lim = self.data.len();
+        if let Some(k) = self.failat {
+            if self.pos >= k { return Err(std::io::Error::new(std::io::ErrorKind::Other, "fail")); }
+            lim = lim.min(k);
+        }
+        let want = self.sizes[self.calls % self.sizes.len()].max(1);
+        let n = want.min(buf.len()).min(lim - self.pos.min(lim));
+        buf[..n].copy_from_slice(&self.data[self.pos..self.pos + n]);
+        self.pos += n;
+        Ok(n)
+    }
+}
+
+fn ser_code<T>(r: std::thread::Result<ser::Result<T>>, got: &[u8], want: &[u8], content: bool) -> String {
+    // `content`: compare the accepted bytes with the reference (only meaningful when both come from
+    // the same object: padding bytes of a fresh object are unspecified); otherwise only the length
+    let pre = if got.len() <= want.len() && (!content || got == &want[..got.len()]) { format!("p{}", got.len()) } else { "NOTPREFIX".to_string() };
+    match r {
+        Ok(Ok(_)) => format!("OK/{}", pre),
+        Ok(Err(e)) => format!("{}/{}", show_ser_err(&e), pre),
+        Err(_) => format!("PANIC/{}", pre),
+    }
+}
+
 pub fn erase_refs(s: &str) -> String {
     let mut out = String::with_capacity(s.len());
     let mut skipping = false;
@@ -245,8 +325,9 @@ pub fn schema_obs<S: Serialize>(v: &S, plain: &Option<Vec<u8>>) -> SchemaObs {
             let dbg = catch_unwind(AssertUnwindSafe(|| schema.debug(&w.bytes).len())).is_ok();
             SchemaObs {
                 line: format!(
-                    "OK rows={} csv={} debug={} same={}",
+                    "OK rows={} flush={} csv={} debug={} same={}",
                     txt.join(";"),
+                    w.flushed,
                     if csv { "ok" } else { "panic" },
                     if dbg { "ok" } else { "panic" },
                     if same { "y" } else { "n" }
@@ -290,7 +371,21 @@ where
                 }
             }
             "schema" => {
-                let so = schema_obs(&mk(), &bytes);
+                // the plain and the recording serialization of the SAME object (padding bytes of a
+                // fresh object are unspecified); iterator wrappers are consumed, so for them a
+                // fresh object is used and only the lengths are compared
+                let so = if arg == "noagain" {
+                    let mut so = schema_obs(&mk(), &None);
+                    let mut w = RecWriter::default();
+                    let _ = catch_unwind(AssertUnwindSafe(|| mk().serialize_with_schema(&mut w)));
+                    let same = bytes.as_ref().map(|b| b.len() == w.bytes.len()).unwrap_or(false);
+                    so.line = so.line.replace("same=n", if same { "same=y" } else { "same=n" });
+                    so
+                } else {
+                    let v = mk();
+                    let plain = ser_obs(&v).1;
+                    schema_obs(&v, &plain)
+                };
                 out.push_str(&format!("{} schema {}\n", cid, so.line));
             }
             "cuts" => {
@@ -345,6 +440,109 @@ where
                         codes.push(class_of(&o));
                     }
                     out.push_str(&format!("{} place {} misaligned={}\n", cid, rle(&codes), misaligned));
+                }
+            }
+            "wfault" => {
+                // every failure position, flush failure, short writes, interrupts, Ok(0), real sinks;
+                // the value is serialized again afterwards (same object) to see it is intact
+                if bytes.is_some() {
+                    // one object for every run (so that padding bytes are the same), except for
+                    // iterator wrappers, which are consumed by serialization
+                    let same_obj = arg != "noagain";
+                    let v = mk();
+                    let b: Vec<u8> = if same_obj { ser_obs(&v).1.unwrap_or_default() } else { bytes.clone().unwrap() };
+                    let b = &b;
+                    let n = b.len();
+                    macro_rules! run {
+                        ($w:expr) => {{
+                            if same_obj { catch_unwind(AssertUnwindSafe(|| v.serialize($w))) }
+                            else { catch_unwind(AssertUnwindSafe(|| mk().serialize($w))) }
+                        }};
+                    }
+                    let mut codes = vec![];
+                    for k in 0..=n {
+                        let mut w = FailAfter { limit: k, got: vec![] };
+                        let r = run!(&mut w);
+                        let c = ser_code(r, &w.got, b, same_obj);
+                        // required: WriteError with exactly the first k bytes accepted (success when k = n)
+                        let want = if k < n { format!("WriteError/p{}", k) } else { format!("OK/p{}", n) };
+                        codes.push(if c == want { "ok".to_string() } else { c });
+                    }
+                    let mut extra = vec![];
+                    let mut w = FlushFail { got: vec![] };
+                    let r = run!(&mut w);
+                    extra.push(format!("flush={}", ser_code(r, &w.got, b, same_obj)));
+                    for (name, max, intr) in [("short1", 1usize, 0usize), ("short3", 3, 0), ("short7intr2", 7, 2), ("bigintr3", 1 << 20, 3)] {
+                        let mut w = ShortWriter { max, intr, calls: 0, got: vec![] };
+                        let r = run!(&mut w);
+                        extra.push(format!("{}={}", name, ser_code(r, &w.got, b, same_obj)));
+                    }
+                    let mut w = ZeroAfter { limit: n / 2, got: vec![] };
+                    let r = run!(&mut w);
+                    extra.push(format!("zero={}", ser_code(r, &w.got, b, same_obj)));
+                    // the other serialization entry point: serialize_with_schema
+                    macro_rules! runs {
+                        ($w:expr) => {{
+                            if same_obj { catch_unwind(AssertUnwindSafe(|| v.serialize_with_schema($w))) }
+                            else { catch_unwind(AssertUnwindSafe(|| mk().serialize_with_schema($w))) }
+                        }};
+                    }
+                    let mut w = FlushFail { got: vec![] };
+                    let r = runs!(&mut w);
+                    extra.push(format!("sflush={}", ser_code(r, &w.got, b, same_obj)));
+                    let mut w = FailAfter { limit: n / 2, got: vec![] };
+                    let r = runs!(&mut w);
+                    extra.push(format!("smid={}", ser_code(r, &w.got, b, same_obj)));
+                    // real sinks
+                    let path = std::env::temp_dir().join(format!("evh_{}_{}.bin", std::process::id(), cid));
+                    {
+                        let f = std::fs::File::create(&path).unwrap();
+                        let mut bw = std::io::BufWriter::new(f);
+                        let r = run!(&mut bw);
+                        drop(bw);
+                        let got = std::fs::read(&path).unwrap_or_default();
+                        extra.push(format!("file={}", ser_code(r, &got, b, same_obj)));
+                        let _ = std::fs::remove_file(&path);
+                    }
+                    if let Ok(f) = std::fs::OpenOptions::new().write(true).open("/dev/full") {
+                        let mut bw = std::io::BufWriter::new(f);
+                        let r = run!(&mut bw);
+                        extra.push(format!("devfull={}", match r { Ok(Ok(_)) => "OK".to_string(), Ok(Err(e)) => show_ser_err(&e), Err(_) => "PANIC".into() }));
+                        std::mem::forget(bw);
+                    }
+                    if same_obj {
+                        // after all those failures the same object still serializes to the same bytes
+                        let (_, again) = ser_obs(&v);
+                        extra.push(format!("again={}", if again.as_deref() == Some(&b[..]) { "same" } else { "DIFFERENT" }));
+                    }
+                    out.push_str(&format!("{} wfault fails={} {}\n", cid, rle(&codes), extra.join(" ")));
+                }
+            }
+            "rfault" => {
+                if let Some(b) = &bytes {
+                    let plain = full_obs::<D>(b);
+                    let mut parts = vec![];
+                    for (name, sizes, intr) in [("one", vec![1usize], 0usize), ("three", vec![3], 0), ("primes", vec![2, 3, 5, 7, 11, 13], 0), ("mixintr", vec![1, 64, 2, 9], 2), ("bigintr", vec![1 << 20], 3)] {
+                        let mut r = FragReader { data: b, pos: 0, sizes, intr, calls: 0, failat: None };
+                        let res = catch_unwind(AssertUnwindSafe(|| D::deserialize_full(&mut r)));
+                        let s = match res {
+                            Ok(Ok(v)) => { set_buf(0, 0); format!("OK {} pos={:x} rest={}", show(&v), r.pos, b.len() - r.pos) }
+                            Ok(Err(e)) => format!("ERR {}", show_err(&e)),
+                            Err(_) => "PANIC".into(),
+                        };
+                        parts.push(format!("{}={}", name, if s == plain { "same" } else { "DIFFERENT" }));
+                    }
+                    let mut codes = vec![];
+                    for k in 0..b.len() {
+                        let mut r = FragReader { data: b, pos: 0, sizes: vec![5, 1, 9], intr: 0, calls: 0, failat: Some(k) };
+                        let res = catch_unwind(AssertUnwindSafe(|| D::deserialize_full(&mut r)));
+                        codes.push(match res {
+                            Ok(Ok(_)) => "OK".to_string(),
+                            Ok(Err(e)) => show_err(&e),
+                            Err(_) => "P".into(),
+                        });
+                    }
+                    out.push_str(&format!("{} rfault {} fails={}\n", cid, parts.join(" "), rle(&codes)));
                 }
             }
             "tags" => {
